@@ -13,6 +13,7 @@ impl of the same name for the same view type **as it is** (sync `to_html()`, `hy
 | `Position`                    | view/mod.rs `Position` (all six variants; `OnlyChild`/`LastChild`/`Current` are never *set* by the modelled views, `Current` is honoured by the element step) |
 | `Cur`                         | hydration.rs `Cursor` (the current node) together with the shared `PositionState` cell      |
 | `Cur.child/sibling/parent`    | `Cursor::{child, sibling, parent}`: "does nothing if there is no child / sibling / parent"  |
+| `textTarget`, `elemTarget`    | the node a string view / an element casts (strings.rs `hydrate`, element/mod.rs `inner_1`) |
 | `stepIn`                      | the recurring `if position == FirstChild { cursor.child() } else { cursor.sibling() }`       |
 | `nextPlaceholder`             | `Cursor::next_placeholder` (+ `failed_to_cast_marker_node`)                                 |
 | `HydrationError`              | `failed_to_cast_text_node / _marker_node / _element` (a panic in Rust, an `Except.error` here) |
@@ -75,6 +76,18 @@ inductive HydrationError where
 def nextPlaceholder (d : Dom) (c : Cur) : Except HydrationError Id :=
   let n := stepIn d c
   if d.kindOf n = some .comment then .ok n else .error (.marker n)
+
+/-- the node a string view looks at (strings.rs `hydrate`): one step, and one more `sibling()` when
+the position is `NextChildAfterText` ("separating placeholder marker comes before text node") -/
+def textTarget (d : Dom) (c : Cur) : Id :=
+  let n := stepIn d c
+  if c.pos = .nextChildAfterText then (d.nextSibling n).getD n else n
+
+/-- the node an element looks at (html/element/mod.rs `inner_1`) -/
+def elemTarget (d : Dom) (c : Cur) : Id :=
+  if c.pos = .firstChild then (c.child d).node
+  else if c.pos ≠ .current then (c.sibling d).node
+  else c.node
 
 /-! ## the SSR printer over `View` -/
 
@@ -204,19 +217,14 @@ mutual
 /-- `RenderHtml::hydrate::<true>(cursor, position)` -/
 def hydrate (d : Dom) : View → Cur → Except HydrationError Out
   | .text s, c =>
-    let n := stepIn d c
-    -- separating placeholder marker comes before text node
-    let n := if c.pos = .nextChildAfterText then (d.nextSibling n).getD n else n
+    let n := textTarget d c
     if d.kindOf n = some .text then .ok ⟨.text n s, ⟨n, .nextChildAfterText⟩, 0⟩ else .error (.text n)
   | .unit, c =>
     match nextPlaceholder d c with
     | .ok m => .ok ⟨.unit m, ⟨m, .nextChild⟩, 0⟩
     | .error e => .error e
   | .elem tag as child, c =>
-    let n :=
-      if c.pos = .firstChild then (c.child d).node
-      else if c.pos ≠ .current then (c.sibling d).node
-      else c.node
+    let n := elemTarget d c
     if d.isElement n then
       let ass := as.map hydrateAttr
       if !viewExists child || !escKids tag then .ok ⟨.elem n ass none, ⟨n, .nextChild⟩, 0⟩
@@ -330,6 +338,41 @@ end
 def Realises (d : Dom) (root : Id) (f : List IdTree) (ts : List HTree) : Prop :=
   (∃ r, d.get? root = some r ∧ r.kind.isElem = true ∧ r.kids = f.map IdTree.id) ∧
     (f.map IdTree.id).Nodup ∧ realL d ts f root
+
+mutual
+/-- executable form of `real` (sound: `real_of_realB` in Proofs/HydrateWalk.lean) -/
+def realB (d : Dom) : HTree → IdTree → Id → Bool
+  | .text s, .node i ks, p =>
+    ks.isEmpty && (match d.get? i with
+      | some r => r.kind == .text && r.data == String.ofList s && r.parent == some p
+      | none => false)
+  | .comment s, .node i ks, p =>
+    ks.isEmpty && (match d.get? i with
+      | some r => r.kind == .comment && r.data == String.ofList s && r.parent == some p
+      | none => false)
+  | .elem tag attrs kids, .node i ks, p =>
+    match d.get? i with
+    | some r =>
+      r.kind == .elem (String.ofList tag) && r.parent == some p &&
+        r.attrs == attrs.map (fun a => (String.ofList a.1, String.ofList a.2)) &&
+        r.kids == ks.map IdTree.id && decide ((ks.map IdTree.id).Nodup) && realLB d kids ks i
+    | none => false
+def realLB (d : Dom) : List HTree → List IdTree → Id → Bool
+  | [], [], _ => true
+  | t :: ts, i :: is, p => realB d t i p && realLB d ts is p
+  | _, _, _ => false
+end
+
+/-- executable form of `Realises` -/
+def realisesB (d : Dom) (root : Id) (f : List IdTree) (ts : List HTree) : Bool :=
+  (match d.get? root with
+   | some r => r.kind.isElem && r.kids == f.map IdTree.id
+   | none => false) && decide ((f.map IdTree.id).Nodup) && realLB d ts f root
+
+/-- loading a parsed forest below a fresh root gives a DOM that holds it -/
+def loadOK (ts : List HTree) : Bool :=
+  let (d, root, f) := loadRoot ts
+  realisesB d root f ts
 
 /-! ## specification of the binding -/
 
@@ -462,6 +505,39 @@ def textsL : List View → List String
 end
 
 def hasEmptyText (v : View) : Bool := (texts v).contains ""
+
+/-! ## retained state up to node identity -/
+
+inductive Shape where
+  | text (s : String)
+  | unit
+  | elem (attrs : List AttrState) (child : Option Shape)
+  | tuple (l : List Shape)
+  | either (i : Nat) (s : Shape)
+  | vec (l : List Shape)
+  | any (ty : Ty) (s : Shape)
+  deriving Repr, Inhabited
+
+/-- an element without children: `Some(placeholder)` (client-built) and `None` (hydrated) coincide -/
+def Shape.elemOf (as : List AttrState) : Shape → Shape
+  | .unit => .elem as none
+  | sh => .elem as (some sh)
+
+mutual
+/-- the retained state with node ids forgotten -/
+def nshape : State → Shape
+  | .text _ s => .text s
+  | .unit _ => .unit
+  | .elem _ as none => .elem as none
+  | .elem _ as (some c) => Shape.elemOf as (nshape c)
+  | .tuple sts => .tuple (nshapeL sts)
+  | .either i st => .either i (nshape st)
+  | .vec sts _ => .vec (nshapeL sts)
+  | .any ty st => .any ty (nshape st)
+def nshapeL : List State → List Shape
+  | [] => []
+  | s :: ss => nshape s :: nshapeL ss
+end
 
 /-! ## the two runs the property compares -/
 
